@@ -84,6 +84,11 @@ CHECKS = {
    text="Three (thorough: five) configurations - 3 members with identical views and 2 concurrent joins through different members, the same with message faults, members 1-2 stale about a node that joined through member 3 (a real earlier join) with faults; thorough: 4 members / 3 joins, 1 member / 2 joins. All interleavings of the joiners, the responsibles' quorum goroutines and the jurors at transport sends and lock/atomic operations, with every Send resolved as delivered, failed, or delivered with the reply lost, at most 2 (3) deviations per schedule, for 3 (5) map-iteration offsets (which change the majority xrand.SubMap selects). Oracle on every execution: no two admitted nodes share a key (including keys handed out earlier), every returned key was approved by a majority of the coordinator's view, the cluster key is returned; a pledge that never returns is a violation.",
    note="views are harness-owned (identical, or lagging by one joined node); juror memory is per process, juror restarts are not modelled; requests time out only when the scheduler advances fake time; every execution is one complete run of the real handlers, replayed for determinism (GC disabled inside an execution).",
    design="3/C11"),
+ "C19": dict(level="exploration", engine="enumx",
+   technique="bounded exhaustive enumeration of well-typed Arc functions x boundary argument tuples through the real pipeline (text.Parse, text.Analyze, compiler.Compile, wazero validate/instantiate, Call) against a reference interpreter written from arc/docs/spec.md and the Arc reference pages; exhaustive single-token mutation and bounded token-string enumeration for the no-crash clause",
+   text="Programs: every operator (+ - * / % ^, six comparisons, and/or/not, unary minus) on each of the ten scalar types with parameter, typed-literal and bare-literal operands; all 100 cast pairs plus casts of sums/products, sums/comparisons/divisions of casts and round trips (thorough: all 3-cast chains); all flat two-operator sequences (and nine three-operator ones) printed without parentheses so that the documented precedence/associativity decides the expected tree; logic, truthiness and short circuit guarding a division; depth-2 expression trees; typed/inferred locals, parameter assignment, the five compound assignments; if / else-if / else with early return, fall-through, nesting; stateful variables over sequences of three calls on one instance; range loops with 1-3 arguments (negative steps), conditional and infinite loops, break/continue in each position of an if/else-if/else chain and under nesting, early return from a loop, loop-variable casts. Each function is called on the full cross product of a 10-17 value boundary alphabet per parameter (loops: small counts). Judged per call: the returned value at the declared width, or a runtime error exactly for integer division/modulo by zero; analyzer-accepted programs must compile, validate and instantiate. Cases the documentation leaves open (narrowing casts that also change signedness, NaN to integer, negative integer exponents, minimum/-1, range counters leaving their type) are counted, not judged. No-crash: every single-token deletion, duplication, swap and replacement by each of 39 alphabet tokens, and every truncation, of one seed program per family, and every token string up to length 3 (thorough: 4) over 30 tokens in a function body: diagnostics or a valid module, never a panic.",
+   note="wazero interpreter engine; results are read at the declared width as every host does; a divergence in an evaluation in which a documented-but-unimplemented situation occurred (narrow overflow, saturating casts, documented precedence the grammar does not implement, ...) is attributed to the corresponding entry of KNOWN_FINDINGS.txt, every other divergence is a violation; series, strings, channels and the flow/sequence layers are outside this check.",
+   design="3/C19"),
 }
 NOT_YET = {}
 props = [json.loads(l) for l in open(os.path.join(HERE, "properties.jsonl"))]
